@@ -254,6 +254,9 @@ class RecFile:
         self.data = bytearray()
         self.seeks = []
 
+    def __len__(self):
+        return len(self.data)  # like a list or a bytearray, the sink is falsy while nothing was written to it
+
     def write(self, data):
         self.data += data
 
@@ -263,6 +266,8 @@ class RecFile:
 
 class ARecFile(RecFile):
     async def awrite(self, data):
+        import asyncio
+        await asyncio.sleep(0)  # a sink that really suspends (a file rolled to disk, a network store): other tasks get their turn
         self.data += data
 
     async def aseek(self, off):
